@@ -35,6 +35,7 @@ type Rec struct {
 	OpHist map[string]int
 	Reads  int
 	NoObs  bool // suppress the automatic observation (the caller observes)
+	Dead   bool // a call into the vault never returned: nothing more is done on this vault
 }
 
 func NewRec(ctx context.Context, b *Backend, set *Set) *Rec {
@@ -42,13 +43,41 @@ func NewRec(ctx context.Context, b *Backend, set *Set) *Rec {
 		tableIx: map[string]int{}, OpHist: map[string]int{}}
 }
 
+// Hangs counts, over the whole process, the vault calls that did not return within CallDeadline.
+var Hangs int
+
+// CallDeadline bounds every call into a vault (they take milliseconds; the cosmosdb reader retries
+// some errors for ever on a context it detached from the caller's).
+var CallDeadline = 4 * time.Second
+
+// guard runs one call into the vault (or into the abstraction of its result): a panic or a call that
+// does not return is recorded as an observation; after a hang the vault is not used any more (its lock
+// may be held by the call that never returned).
 func (r *Rec) guard(what string, f func()) {
-	defer func() {
-		if p := recover(); p != nil {
-			r.Notes = append(r.Notes, fmt.Sprintf("panic in %s: %v\n%s", what, p, debug.Stack()))
-		}
+	if r.Dead {
+		return
+	}
+	done := make(chan string, 1)
+	go func() {
+		defer func() {
+			if p := recover(); p != nil {
+				done <- fmt.Sprintf("panic in %s: %v\n%s", what, p, debug.Stack())
+				return
+			}
+			done <- ""
+		}()
+		f()
 	}()
-	f()
+	select {
+	case note := <-done:
+		if note != "" {
+			r.Notes = append(r.Notes, note)
+		}
+	case <-time.After(CallDeadline):
+		r.Dead = true
+		Hangs++
+		r.Notes = append(r.Notes, fmt.Sprintf("hang: %s did not return within %v (the case stops here)", what, CallDeadline))
+	}
 }
 
 func (r *Rec) intern(term string) int {
@@ -67,13 +96,39 @@ func stateTerm(s *workflow.State) string {
 
 // observe reads every id of the pool and (file-backed sqlite) counts rows per plan id.
 func (r *Rec) observe(ok string) (string, map[string]any) {
-	var reads, counts []string
+	var reads, counts, exists, search []string
 	human := map[string]any{}
+	for _, id := range r.IDs {
+		var ex bool
+		var err error
+		r.guard("Exists", func() { ex, err = r.B.Vault.Exists(r.Ctx, id) })
+		if r.Dead {
+			break
+		}
+		if err != nil {
+			r.Notes = append(r.Notes, "panic-class: Exists returned an error: "+errText(err))
+			continue
+		}
+		exists = append(exists, core.Pair(r.Cx.Uid(id), core.B(ex)))
+		human["exists "+id.String()] = ex
+		if r.B.Cosmos != nil {
+			raw, err := r.B.Cosmos.SearchItemRaw(r.Ctx, id.String())
+			if err != nil {
+				r.Notes = append(r.Notes, "panic-class: SearchItemRaw failed: "+errText(err))
+				continue
+			}
+			search = append(search, core.Pair(r.Cx.Uid(id), core.B(len(raw) > 0)))
+			human["search entry "+id.String()] = len(raw) > 0
+		}
+	}
 	for _, id := range r.IDs {
 		var got *workflow.Plan
 		var err error
 		r.guard("Read", func() { got, err = r.B.Vault.Read(r.Ctx, id) })
 		r.Reads++
+		if r.Dead {
+			break
+		}
 		switch {
 		case err != nil || got == nil:
 			reads = append(reads, core.Pair(r.Cx.Uid(id), "None"))
@@ -101,7 +156,7 @@ func (r *Rec) observe(ok string) (string, map[string]any) {
 			}
 		}
 	}
-	if r.B.HasCounts() {
+	if r.B.HasCounts() && !r.Dead {
 		for _, id := range r.IDs {
 			ns, err := r.B.Counts(id)
 			if err != nil {
@@ -116,7 +171,7 @@ func (r *Rec) observe(ok string) (string, map[string]any) {
 			human["rows "+id.String()] = ns
 		}
 	}
-	return core.App("Build_obs", ok, core.List(reads), core.List(counts)), human
+	return core.App("Build_obs", ok, core.List(reads), core.List(counts), core.List(exists), core.List(search)), human
 }
 
 func okTerm(err error) string {
@@ -136,7 +191,7 @@ func errText(err error) string {
 
 func (r *Rec) push(opTerm, kind string, err error, okT string, extra map[string]any) {
 	r.OpHist[kind]++
-	obs, human := "(Build_obs None [] [])", map[string]any{}
+	obs, human := "(Build_obs None [] [] [] [])", map[string]any{}
 	if !r.NoObs {
 		obs, human = r.observe(okT)
 	}
@@ -151,6 +206,9 @@ func (r *Rec) push(opTerm, kind string, err error, okT string, extra map[string]
 // Create calls Vault.Create(give) and records the operation with ref, the harness's own structurally
 // equal copy (the cosmosdb creator overwrites its argument). ref is normalised in place.
 func (r *Rec) Create(give, ref *workflow.Plan, what string) error {
+	if r.Dead {
+		return fmt.Errorf("vault abandoned after a hang")
+	}
 	var err error
 	r.guard("Create", func() { err = r.B.Vault.Create(r.Ctx, give) })
 	return r.Created_(ref, err, what, "CCreate")
@@ -158,6 +216,9 @@ func (r *Rec) Create(give, ref *workflow.Plan, what string) error {
 
 // Created_ records a create that the caller performed itself (Submit, killed child).
 func (r *Rec) Created_(ref *workflow.Plan, err error, what, ctor string) error {
+	if r.Dead {
+		return fmt.Errorf("vault abandoned after a hang")
+	}
 	NormPlan(ref)
 	if _, dup := r.Created[ref.ID]; !dup {
 		r.Created[ref.ID] = ref // used only to order actions read through the cosmos fake
@@ -173,6 +234,9 @@ func (r *Rec) Created_(ref *workflow.Plan, err error, what, ctor string) error {
 }
 
 func (r *Rec) Delete(id uuid.UUID) error {
+	if r.Dead {
+		return fmt.Errorf("vault abandoned after a hang")
+	}
 	var err error
 	r.guard("Delete", func() { err = r.B.Vault.Delete(r.Ctx, id) })
 	return r.Deleted_(id, err, "delete", "CDelete")
@@ -180,6 +244,9 @@ func (r *Rec) Delete(id uuid.UUID) error {
 
 // Deleted_ records a delete that the caller performed itself (fault injection).
 func (r *Rec) Deleted_(id uuid.UUID, err error, what, ctor string) error {
+	if r.Dead {
+		return fmt.Errorf("vault abandoned after a hang")
+	}
 	if err == nil {
 		delete(r.Created, id)
 	}
@@ -191,6 +258,9 @@ func (r *Rec) Deleted_(id uuid.UUID, err error, what, ctor string) error {
 // (reason, attempts) and deliberately DIFFERENT definition fields: an updater must not persist those.
 
 func (r *Rec) UpdatePlan(id uuid.UUID, reason workflow.FailureReason, st *workflow.State, submit time.Time) error {
+	if r.Dead {
+		return fmt.Errorf("vault abandoned after a hang")
+	}
 	p := &workflow.Plan{ID: id, Name: "mutated-by-update", Descr: "mutated", GroupID: uuid.Nil, Meta: []byte("mutated"),
 		Reason: reason, State: st, SubmitTime: submit}
 	var err error
@@ -200,6 +270,9 @@ func (r *Rec) UpdatePlan(id uuid.UUID, reason workflow.FailureReason, st *workfl
 }
 
 func (r *Rec) UpdateBlock(planID, id uuid.UUID, st *workflow.State) error {
+	if r.Dead {
+		return fmt.Errorf("vault abandoned after a hang")
+	}
 	b := &workflow.Block{ID: id, Name: "mutated-by-update", Descr: "mutated", Concurrency: 77, ToleratedFailures: 77, State: st}
 	b.SetPlanID(planID)
 	var err error
@@ -209,6 +282,9 @@ func (r *Rec) UpdateBlock(planID, id uuid.UUID, st *workflow.State) error {
 }
 
 func (r *Rec) UpdateChecks(planID, id uuid.UUID, st *workflow.State) error {
+	if r.Dead {
+		return fmt.Errorf("vault abandoned after a hang")
+	}
 	c := &workflow.Checks{ID: id, Delay: 77, State: st}
 	c.SetPlanID(planID)
 	var err error
@@ -218,6 +294,9 @@ func (r *Rec) UpdateChecks(planID, id uuid.UUID, st *workflow.State) error {
 }
 
 func (r *Rec) UpdateSequence(planID, id uuid.UUID, st *workflow.State) error {
+	if r.Dead {
+		return fmt.Errorf("vault abandoned after a hang")
+	}
 	s := &workflow.Sequence{ID: id, Name: "mutated-by-update", Descr: "mutated", State: st}
 	s.SetPlanID(planID)
 	var err error
@@ -228,6 +307,9 @@ func (r *Rec) UpdateSequence(planID, id uuid.UUID, st *workflow.State) error {
 
 // UpdateAction: atts goes to the vault, refAtts (structurally equal, the harness's own) is recorded.
 func (r *Rec) UpdateAction(planID, id uuid.UUID, plugin string, st *workflow.State, atts, refAtts []*workflow.Attempt) error {
+	if r.Dead {
+		return fmt.Errorf("vault abandoned after a hang")
+	}
 	a := &workflow.Action{ID: id, Name: "mutated-by-update", Descr: "mutated", Plugin: plugin, Timeout: 77, Retries: 77,
 		Req: nil, Attempts: atts, State: st}
 	a.SetPlanID(planID)
